@@ -1,7 +1,7 @@
 ENTRY = {
     "C19": {
         "pkg": ".", "hdir": "dastard", "harness": DASTARD_COMMON + ["zz_verif_files_test.go", "zz_verif_c19_test.go"], "test": "TestVerifC19",
-        "quick": T(16, 120), "thorough": T(16, 600),
+        "quick": T(16, 180), "thorough": T(16, 600),
         "rule": "one execution = one source configuration (Lancero: active cards, columns, rows, FirstRow, ChanSepColumns, ChanSepCards; Abaco: set, arrival order and "
                 "producer assignment of channel groups; generic/Triangle/SimPulse/Roach: channel count) through the real PrepareChannels (Abaco: real Sample first) and "
                 "PrepareRun; names, numbers, groups and row/column codes compared with the geometry the harness configured, accepted Lancero separations re-checked "
